@@ -3,17 +3,21 @@ import gen_bitvec
 
 FAMILY = "bitvec"
 TRACE_SPEC = "Trace_BitVec"
-PROPS = ["C06", "C14"]
+PROPS = ["C06", "C14", "C11", "C12", "C15"]
 
 
 def mc(prop, tier):
     q = tier == "quick"
+    if prop in ("C12", "C15"):
+        return []
     return [("MC_BitVec", "MC_BitVec_small2.cfg" if q else "MC_BitVec_small.cfg",
              ["MC_BitVec.Construct", "MC_BitVec.Mutate"])]
 
 
 def exports(prop, tier):
     q = tier == "quick"
+    if prop in ("C11", "C12", "C15"):
+        return []
     return [("tlc", "MC_BitVec", "MC_BitVec_w64_d2.cfg" if q else "MC_BitVec_w64_d3.cfg")]
 
 
@@ -26,12 +30,21 @@ def episodes(prop, tier, seed):
             out["rand-release"] = (gen_bitvec.random_episodes(seed + 1, 5000), "release")
     if prop == "C14":
         out["dirty"] = (gen_bitvec.dirty_episodes(seed, 1500 if q else 20000), "verif")
+    if prop == "C11":
+        out["space"] = (gen_bitvec.space_episodes(seed, 300 if q else 5000), "verif")
+    if prop == "C12":
+        out["ood"] = (gen_bitvec.ood_episodes(seed, 300 if q else 5000), "verif")
+        if not q:
+            out["ood-release"] = (gen_bitvec.ood_episodes(seed + 1, 2000), "release")
+    if prop == "C15":
+        out["reload"] = (gen_bitvec.reload_episodes(seed, 150 if q else 3000), "verif")
     return out
 
 
 def nontrivial(epi):
     ops = [o["op"] for o in epi["ops"]]
-    return any(o in ("pop", "resize") for o in ops) or ops[0] == "raw" or "into" in ops
+    return any(o in ("pop", "resize", "reload", "mem_size", "a_mem_size") for o in ops) or ops[0] == "raw" or "into" in ops \
+        or epi.get("src") == "ood"
 
 
 RULE = ("bitvec: episode = constructor + operation history + observer battery; non-trivial = contains a shrink "
